@@ -72,8 +72,8 @@ def check_block_mutators(chk, crate, idents, rule, opaque_defs):
                 t1 = tys[b["locals"][1]]
                 if not (t1["k"] == "ref" and t1["mut"] and tys[t1["to"]]["k"] == "adt" and tys[t1["to"]]["def"] == adt["path"]):
                     continue
-                if not b.get("pub", True) and tr is None:
-                    continue  # private helpers are reached through the operations that use them
+                if not b.get("pub", True):
+                    continue  # private helpers (and methods of crate-private traits) are reached through the operations that use them
                 n += 1
                 chk.body(key)
                 where = b["span"][0]
